@@ -61,6 +61,16 @@ Proof.
   - simpl. now apply nth_upd_other.
 Qed.
 
+Lemma NoDup_snoc : forall (A : Type) (l : list A) x, NoDup l -> ~ In x l -> NoDup (l ++ [x]).
+Proof.
+  intros A l x. induction l as [|a l IH]; simpl; intros Hn Hx.
+  - constructor; auto.
+  - inversion Hn; subst. constructor.
+    + intro Hin. apply in_app_or in Hin. destruct Hin as [Hin|[Hin|[]]]; [contradiction|].
+      subst. apply Hx. now left.
+    + apply IH; auto.
+Qed.
+
 (* soundness of the equality tests used by the correspondence *)
 Lemma list_eqb_eq : forall (A : Type) (e : A -> A -> bool),
   (forall x y, e x y = true -> x = y) -> forall a b, list_eqb e a b = true -> a = b.
@@ -273,3 +283,266 @@ Proof.
   - intros M' HM' Hi'. rewrite <- Heq. now apply (cover_ge_matching E).
   - intros cu' cv' Hc'. rewrite Heq. now apply (cover_ge_matching E).
 Qed.
+
+(* ================================================================================== *)
+(* 3. the Koenig construction: exploration closure, cover, range, fuel                 *)
+(* ================================================================================== *)
+Section Explore.
+  Variable g : graph.
+  Variable M : list (nat * nat).
+  Hypothesis W : wf g.
+
+  (* every non-matching edge at u leads into vv *)
+  Definition closed (vv : list nat) (u : nat) : Prop :=
+    forall v, In v (adjU g u) -> ~ In (u, v) M -> In v vv.
+  Definition has_partner (vv : list nat) (u : nat) : Prop := exists v, In v vv /\ In (u, v) M.
+  Definition mono (s s' : vis) : Prop :=
+    incl (fst s) (fst s') /\ incl (snd s) (snd s') /\
+    (forall v, In v (snd s') -> In v (snd s) \/ v < num_v g).
+
+  Lemma closed_mono : forall vv vv' u, incl vv vv' -> closed vv u -> closed vv' u.
+  Proof. intros vv vv' u Hi Hc v H1 H2. apply Hi. now apply Hc. Qed.
+  Lemma has_partner_mono : forall vv vv' u, incl vv vv' -> has_partner vv u -> has_partner vv' u.
+  Proof. intros vv vv' u Hi [v [H1 H2]]. exists v. split; auto. Qed.
+  Lemma mono_refl : forall s, mono s s.
+  Proof. intros s. repeat split; try apply incl_refl. auto. Qed.
+  Lemma mono_trans : forall s1 s2 s3, mono s1 s2 -> mono s2 s3 -> mono s1 s3.
+  Proof.
+    intros s1 s2 s3 (A1 & A2 & A3) (B1 & B2 & B3). repeat split.
+    - eapply incl_tran; eauto. - eapply incl_tran; eauto.
+    - intros v Hv. destruct (B3 v Hv) as [H|H]; auto.
+  Qed.
+
+  (* what a call explore(w) guarantees *)
+  Definition rec_spec (rec : nat -> vis -> option vis) : Prop :=
+    forall w s s', rec w s = Some s' ->
+      mono s s' /\ In w (fst s') /\
+      (forall u, In u (fst s') -> In u (fst s) \/ (closed (snd s') u /\ (u = w \/ has_partner (snd s') u))).
+
+  Lemma expl_u_spec : forall rec, rec_spec rec -> forall v ws s s',
+    expl_u rec M v ws s = Some s' -> In v (snd s) ->
+    mono s s' /\
+    (forall u, In u (fst s') -> In u (fst s) \/ (closed (snd s') u /\ has_partner (snd s') u)).
+  Proof.
+    intros rec HR v ws. induction ws as [|w ws IH]; intros s s' H Hv; simpl in H.
+    - inversion H; subst. split; [apply mono_refl|auto].
+    - destruct (memp (w, v) M) eqn:E.
+      + destruct (rec w s) as [s1|] eqn:E1; [|discriminate].
+        destruct (HR _ _ _ E1) as (Hm1 & _ & Hn1).
+        assert (Hv1 : In v (snd s1)) by (apply Hm1; assumption).
+        destruct (IH _ _ H Hv1) as (Hm2 & Hn2). split; [eapply mono_trans; eauto|].
+        intros u Hu. destruct (Hn2 u Hu) as [Hu1|]; auto.
+        destruct (Hn1 u Hu1) as [|[Hc Hp]]; auto. right.
+        destruct Hm2 as (_ & Hi & _). split; [eapply closed_mono; eauto|].
+        destruct Hp as [->|Hp]; [|eapply has_partner_mono; eauto].
+        exists v. split; [apply Hi; assumption|now apply memp_In].
+      + eauto.
+  Qed.
+
+  Lemma expl_v_spec : forall rec, rec_spec rec -> forall us vs s s',
+    expl_v rec g M us vs s = Some s' -> incl vs (adjU g us) ->
+    mono s s' /\
+    (forall u, In u (fst s') -> In u (fst s) \/ (closed (snd s') u /\ has_partner (snd s') u)) /\
+    (forall v, In v vs -> ~ In (us, v) M -> In v (snd s')).
+  Proof.
+    intros rec HR us vs. induction vs as [|v vs IH]; intros s s' H Hin; simpl in H.
+    - inversion H; subst. split; [apply mono_refl|]. split; [auto|]. intros v [].
+    - assert (Hin' : incl vs (adjU g us)) by (intros x Hx; apply Hin; now right).
+      destruct (memp (us, v) M) eqn:E.
+      + destruct (IH _ _ H Hin') as (Hm & Hn & Hc). split; [exact Hm|split; [exact Hn|]].
+        intros v' [<-|Hv'] Hnm; auto. apply memp_In in E. contradiction.
+      + destruct (memn v (snd s)) eqn:E2.
+        * destruct (IH _ _ H Hin') as (Hm & Hn & Hc). split; [exact Hm|split; [exact Hn|]].
+          intros v' [<-|Hv'] Hnm; auto. apply memn_In in E2. now apply Hm.
+        * destruct (expl_u rec M v (adjV g v) (fst s, snd s ++ [v])) as [s1|] eqn:E1; [|discriminate].
+          apply expl_u_spec in E1; auto; [|simpl; apply in_or_app; right; now left].
+          destruct E1 as (Hm1 & Hn1). simpl in Hn1.
+          destruct (IH _ _ H Hin') as (Hm2 & Hn2 & Hc2).
+          assert (Hm0 : mono s (fst s, snd s ++ [v])).
+          { repeat split; simpl; try apply incl_refl; [apply incl_appl, incl_refl|].
+            intros x Hx. apply in_app_or in Hx. destruct Hx as [|[<-|[]]]; auto.
+            right. apply (adjU_range g us); auto. apply Hin. now left. }
+          assert (Hm : mono s s') by (eapply mono_trans; [exact Hm0|eapply mono_trans; eauto]).
+          split; [exact Hm|]. split.
+          -- intros u Hu. destruct (Hn2 u Hu) as [Hu1|]; auto.
+             destruct (Hn1 u Hu1) as [|[Hc Hp]]; auto. right.
+             destruct Hm2 as (_ & Hi & _). split; [eapply closed_mono; eauto|eapply has_partner_mono; eauto].
+          -- intros v' [<-|Hv'] Hnm; auto.
+             destruct Hm2 as (_ & Hi & _). apply Hi. destruct Hm1 as (_ & Hi1 & _). apply Hi1.
+             simpl. apply in_or_app. right. now left.
+  Qed.
+
+  Lemma explore_spec : forall f, rec_spec (explore f g M).
+  Proof.
+    induction f as [|f IH]; intros us s s' H; simpl in H; [discriminate|].
+    destruct (memn us (fst s)) eqn:E.
+    - inversion H; subst. apply memn_In in E. split; [apply mono_refl|]. split; auto.
+    - apply expl_v_spec in H; auto; [|apply incl_refl]. simpl in H. destruct H as (Hm & Hn & Hc).
+      assert (Hm0 : mono s (fst s ++ [us], snd s)).
+      { repeat split; simpl; try apply incl_refl; [apply incl_appl, incl_refl|auto]. }
+      split; [eapply mono_trans; eauto|]. split.
+      + destruct Hm as (Hi & _). apply Hi. simpl. apply in_or_app. right. now left.
+      + intros u Hu. destruct (Hn u Hu) as [Hu1|[Hc1 Hp1]]; auto.
+        apply in_app_or in Hu1. destruct Hu1 as [Hu1|[<-|[]]]; [now left|].
+        right. split; [|now left]. intros v Hv Hnm. now apply Hc.
+  Qed.
+
+  (* ---- fuel ---------------------------------------------------------------------- *)
+  Lemma NoDup_range_length : forall l n, NoDup l -> (forall x, In x l -> x < n) -> length l <= n.
+  Proof.
+    intros l n Hn Hr. rewrite <- (seq_length n 0). apply NoDup_incl_length; auto.
+    intros x Hx. apply in_seq. specialize (Hr x Hx). lia.
+  Qed.
+
+  Definition okvis (s : vis) : Prop := NoDup (fst s) /\ forall u, In u (fst s) -> u < num_u g.
+
+  Definition rec_total (rec : nat -> vis -> option vis) (f : nat) : Prop :=
+    forall us s, okvis s -> us < num_u g -> num_u g + 1 <= f + length (fst s) ->
+      exists s', rec us s = Some s' /\ okvis s' /\ length (fst s) <= length (fst s').
+
+  Lemma expl_u_total : forall rec f, rec_total rec f -> forall v ws s,
+    (forall w, In w ws -> w < num_u g) -> okvis s -> num_u g + 1 <= f + length (fst s) ->
+    exists s', expl_u rec M v ws s = Some s' /\ okvis s' /\ length (fst s) <= length (fst s').
+  Proof.
+    intros rec f HT v ws. induction ws as [|w ws IH]; intros s Hws Hok Hf; simpl.
+    - exists s. auto.
+    - assert (Hws' : forall w', In w' ws -> w' < num_u g) by (intros; apply Hws; now right).
+      destruct (memp (w, v) M).
+      + destruct (HT w s Hok (Hws w (or_introl eq_refl)) Hf) as (s1 & -> & Hok1 & Hl1).
+        destruct (IH s1 Hws' Hok1) as (s' & E & Hok' & Hl'); [lia|].
+        exists s'. repeat split; auto; try apply Hok'. lia.
+      + apply IH; auto.
+  Qed.
+
+  Lemma expl_v_total : forall rec f, rec_total rec f -> forall us vs s,
+    okvis s -> num_u g + 1 <= f + length (fst s) ->
+    exists s', expl_v rec g M us vs s = Some s' /\ okvis s' /\ length (fst s) <= length (fst s').
+  Proof.
+    intros rec f HT us vs. induction vs as [|v vs IH]; intros s Hok Hf; simpl.
+    - exists s. auto.
+    - destruct (memp (us, v) M); [apply IH; auto|].
+      destruct (memn v (snd s)); [apply IH; auto|].
+      destruct (expl_u_total rec f HT v (adjV g v) (fst s, snd s ++ [v])) as (s1 & -> & Hok1 & Hl1); auto.
+      { intros w Hw. apply (adjV_range g w v W Hw). }
+      simpl in Hl1. destruct (IH s1 Hok1) as (s' & E & Hok' & Hl'); [lia|].
+      exists s'. repeat split; auto; try apply Hok'. lia.
+  Qed.
+
+  Lemma explore_total : forall f, rec_total (explore f g M) f.
+  Proof.
+    induction f as [|f IH]; intros us s Hok Hus Hf.
+    - exfalso. destruct Hok as [Hn Hr]. pose proof (NoDup_range_length _ _ Hn Hr). lia.
+    - simpl. destruct (memn us (fst s)) eqn:E.
+      + exists s. auto.
+      + apply memn_nIn in E. destruct Hok as [Hn Hr].
+        destruct (expl_v_total _ f IH us (adjU g us) (fst s ++ [us], snd s)) as (s' & E' & Hok' & Hl').
+        * split; simpl.
+          -- now apply NoDup_snoc.
+          -- intros u Hu. apply in_app_or in Hu. destruct Hu as [|[<-|[]]]; auto.
+        * simpl. rewrite app_length. simpl. lia.
+        * exists s'. split; auto. split; auto. simpl in Hl'. rewrite app_length in Hl'. simpl in Hl'. lia.
+  Qed.
+End Explore.
+
+Lemma In_sort_dedup : forall l x, In x (sort_dedup l) <-> In x l.
+Proof.
+  intros l x. unfold sort_dedup. rewrite filter_In, memn_In, in_seq. split; [tauto|].
+  intros H. split; auto. split; [lia|]. simpl.
+  assert (Hle : list_max l <= list_max l) by lia. apply list_max_le in Hle.
+  rewrite Forall_forall in Hle. specialize (Hle x H). lia.
+Qed.
+
+Lemma NoDup_sort_dedup : forall l, NoDup (sort_dedup l).
+Proof. intros l. unfold sort_dedup. apply NoDup_filter. apply seq_NoDup. Qed.
+
+Section Koenig.
+  Variable g : graph.
+  Variable M : list (nat * nat).
+  Hypothesis W : wf g.
+
+  Definition kinv (acc : list nat * list nat * trace) : Prop :=
+    let '(zu, zv, _) := acc in
+    (forall u, In u zu -> closed g M zv u /\ (~ In u (map fst M) \/ has_partner M zv u)) /\
+    (forall v, In v zv -> v < num_v g).
+
+  Lemma koenig_fold : forall starts acc,
+    (forall r, In r starts -> r < num_u g /\ ~ In r (map fst M)) -> kinv acc ->
+    exists acc', fold_left (koenig_step g M) starts (Some acc) = Some acc' /\ kinv acc' /\
+      (forall u, In u (fst (fst acc)) \/ In u starts -> In u (fst (fst acc'))).
+  Proof.
+    induction starts as [|r starts IH]; intros [[zu zv] tr] Hs Hk; simpl.
+    - exists (zu, zv, tr). split; [reflexivity|]. split; [exact Hk|]. simpl. tauto.
+    - destruct (Hs r (or_introl eq_refl)) as [Hr Hnm].
+      destruct (explore_total g M W (explore_fuel g) r ([], [])) as (s & E & _ & _).
+      { split; simpl; [constructor|tauto]. } { assumption. } { unfold explore_fuel. simpl. lia. }
+      rewrite E. destruct (explore_spec g M W _ _ _ _ E) as (Hm & Hin & Hn). simpl in *.
+      destruct (IH (zu ++ fst s, zv ++ snd s, tr ++ [(r, s)])) as (acc' & E' & Hk' & Hi').
+      { intros r' Hr'. apply Hs. now right. }
+      { destruct Hk as [K1 K2]. split.
+        - intros u Hu. apply in_app_or in Hu. destruct Hu as [Hu|Hu].
+          + destruct (K1 u Hu) as [Hc Hp]. split.
+            * eapply closed_mono; [|exact Hc]. apply incl_appl, incl_refl.
+            * destruct Hp; [now left|right]. eapply has_partner_mono; [|eassumption]. apply incl_appl, incl_refl.
+          + destruct (Hn u Hu) as [[]|[Hc Hp]]. split.
+            * eapply closed_mono; [|exact Hc]. apply incl_appr, incl_refl.
+            * destruct Hp as [->|Hp]; [now left|right].
+              eapply has_partner_mono; [|eassumption]. apply incl_appr, incl_refl.
+        - intros v Hv. apply in_app_or in Hv. destruct Hv as [Hv|Hv]; auto.
+          destruct Hm as (_ & _ & Hrng). destruct (Hrng v Hv) as [[]|]; auto. }
+      exists acc'. split; [exact E'|]. split; [exact Hk'|].
+      intros u Hu. apply Hi'. simpl. destruct Hu as [Hu|[<-|Hu]]; auto.
+      + left. apply in_or_app. now left.
+      + left. apply in_or_app. now right.
+  Qed.
+
+  Lemma unmatched_u_spec : forall r, In r (unmatched_u g M) <-> r < num_u g /\ ~ In r (map fst M).
+  Proof.
+    intros r. unfold unmatched_u. rewrite filter_In, in_seq, negb_true_iff, memn_nIn. split.
+    - intros [[_ H] H']. split; auto.
+    - intros [H H']. split; auto. lia.
+  Qed.
+
+  Lemma koenig_visit_spec : exists zu zv tr, koenig_visit g M = Some (zu, zv, tr) /\ kinv (zu, zv, tr) /\
+    (forall u, u < num_u g -> ~ In u (map fst M) -> In u zu).
+  Proof.
+    destruct (koenig_fold (unmatched_u g M) ([], [], [])) as ([[zu zv] tr] & E & Hk & Hi).
+    - intros r Hr. now apply unmatched_u_spec.
+    - split; simpl; intros ? [].
+    - exists zu, zv, tr. split; [exact E|]. split; [exact Hk|].
+      intros u Hu Hn. apply Hi. right. now apply unmatched_u_spec.
+  Qed.
+
+  Theorem koenig_total : exists cu cv, koenig g M = Some (cu, cv).
+  Proof.
+    destruct koenig_visit_spec as (zu & zv & tr & E & _). unfold koenig. rewrite E. eauto.
+  Qed.
+
+  Theorem koenig_range : forall cu cv, koenig g M = Some (cu, cv) ->
+    (forall u, In u cu -> u < num_u g) /\ (forall v, In v cv -> v < num_v g) /\ NoDup cu /\ NoDup cv.
+  Proof.
+    intros cu cv H. destruct koenig_visit_spec as (zu & zv & tr & E & [K1 K2] & _).
+    unfold koenig in H. rewrite E in H. inversion H; subst. split; [|split; [|split]].
+    - intros u Hu. apply filter_In in Hu. destruct Hu as [Hu _]. apply in_seq in Hu. lia.
+    - intros v Hv. rewrite In_sort_dedup in Hv. auto.
+    - apply NoDup_filter, seq_NoDup.
+    - apply NoDup_sort_dedup.
+  Qed.
+
+  (* the matching is only required to use every U vertex at most once *)
+  Theorem koenig_cover : (forall u v v', In (u, v) M -> In (u, v') M -> v = v') ->
+    forall cu cv, koenig g M = Some (cu, cv) ->
+    forall u v, In v (adjU g u) -> In u cu \/ In v cv.
+  Proof.
+    intros HF cu cv H u v He. destruct koenig_visit_spec as (zu & zv & tr & E & [K1 K2] & _).
+    unfold koenig in H. rewrite E in H. inversion H; subst. clear H.
+    destruct (adjU_range g u v W He) as [Hu Hv].
+    destruct (memn u zu) eqn:Ez.
+    - right. rewrite In_sort_dedup. apply memn_In in Ez. destruct (K1 u Ez) as [Hc Hp].
+      destruct (memp (u, v) M) eqn:Em.
+      + apply memp_In in Em. destruct Hp as [Hp|[v' [Hv' Hm']]].
+        * exfalso. apply Hp. apply in_map_iff. exists (u, v). auto.
+        * now rewrite (HF u v v' Em Hm').
+      + apply memp_nIn in Em. now apply Hc.
+    - left. apply filter_In. split; [apply in_seq; lia|]. now rewrite Ez.
+  Qed.
+End Koenig.
